@@ -1210,8 +1210,18 @@ pub fn child18(seed: u64, idx: u64) -> Value {
                 // out-of-range samples only in a third of the calls (decided per call, so that long
                 // all-valid vectors exist)
                 let with_bad = rng.chance(1, 3);
-                let samples: Vec<i32> = (0..n).map(|_| if with_bad && rng.chance(1, 200) { *rng.pick(&[lim as i32, (-lim - 1) as i32, i32::MAX, i32::MIN]) } else { rng.range(-lim, lim - 1) as i32 }).collect();
-                desc = format!("Verbatim::new(samples.len={n}, bps={bps}, out-of-range samples: {with_bad})");
+                let mut samples: Vec<i32> = (0..n).map(|_| if with_bad && rng.chance(1, 200) { *rng.pick(&[lim as i32, (-lim - 1) as i32, i32::MAX, i32::MIN]) } else { rng.range(-lim, lim - 1) as i32 }).collect();
+                let mut n = n;
+                // one call in four: a short vector over the exact limits of the width and their
+                // neighbours (2^(b-1)-1, 2^(b-1), -2^(b-1), -2^(b-1)-1) in every order - the first
+                // value outside the range sits next to the valid extreme of the other sign
+                let limits = rng.chance(1, 4);
+                if limits {
+                    n = 2 + rng.usize_below(7);
+                    let pool = [0i64, 1, -1, lim - 1, lim, -lim, -lim - 1, lim - 1, -lim];
+                    samples = (0..n).map(|_| *rng.pick(&pool) as i32).collect();
+                }
+                desc = format!("Verbatim::new(samples.len={n}, bps={bps}, out-of-range samples: {with_bad}{})", if limits { format!(", limits of the width: {samples:?}") } else { String::new() });
                 if let Ok(c) = Verbatim::new(&samples, bps) {
                     post!("Verbatim", c, |b: &[u8], _bits: usize| {
                         let pb = pad(b);
